@@ -21,8 +21,8 @@ import (
 	rvestingtypes "github.com/teleport-network/teleport/x/rvesting/types"
 	clienttypes "github.com/teleport-network/teleport/x/xibc/core/client/types"
 	"github.com/teleport-network/teleport/x/xibc/core/host"
-	"github.com/teleport-network/teleport/x/xibc/exported"
 	packettypes "github.com/teleport-network/teleport/x/xibc/core/packet/types"
+	"github.com/teleport-network/teleport/x/xibc/exported"
 	xibcmodule "github.com/teleport-network/teleport/x/xibc/module"
 	xibctypes "github.com/teleport-network/teleport/x/xibc/types"
 
